@@ -132,3 +132,47 @@ theorem countSetBitsLoop_eq_popcount (x : Nat) : countSetBitsLoop x = popcount x
   setBitIndicesAux_length (x + 1) x 0 (Nat.lt_succ_self x)
 
 end NumbaEq
+
+/-! ### `ga_call`: the mask `inds = (grades == g0) | (grades == g1) | …` built by a loop is membership in the grade list -/
+namespace NumbaEq
+
+theorem orMasks_size (sz : Nat) (gr : Nat → Nat) (gs : List Nat) (init : Array Bool) (h : init.size = sz) :
+    (gs.foldl (fun inds g => (Array.range sz).map fun j => inds.getD j false || (gr j == g)) init).size = sz := by
+  induction gs generalizing init with
+  | nil => simpa using h
+  | cons g gs ih => simp only [List.foldl_cons]; exact ih _ (by simp)
+
+theorem orMasks (sz : Nat) (gr : Nat → Nat) (gs : List Nat) (init : Array Bool) (h : init.size = sz) (i : Nat) (hi : i < sz) :
+    (gs.foldl (fun inds g => (Array.range sz).map fun j => inds.getD j false || (gr j == g)) init).getD i false
+      = (init.getD i false || gs.contains (gr i)) := by
+  induction gs generalizing init with
+  | nil => simp
+  | cons g gs ih =>
+    simp only [List.foldl_cons]
+    rw [ih _ (by simp)]
+    have : ((Array.range sz).map fun j => init.getD j false || (gr j == g)).getD i false = (init.getD i false || (gr i == g)) := by
+      simp [Array.getD, hi]
+    rw [this, List.contains_cons, Bool.or_assoc]
+
+theorem range_map_congr {α : Type} (n : Nat) (f g : Nat → α) (h : ∀ i, i < n → f i = g i) : (Array.range n).map f = (Array.range n).map g := by
+  apply Array.ext
+  · simp
+  · intro i h1 h2
+    simp only [Array.size_map, Array.size_range] at h1
+    simp [h i h1]
+
+/-- the body of `ga_call` (both the literal-grade and the runtime-grade path): copy the slots selected by the OR of the grade masks -/
+def callBody (C : Model.Ctx) (g0 : Nat) (rest : List Nat) (a : Model.MV) : Model.MV :=
+  let inds := rest.foldl (fun inds g => (Array.range a.size).map fun j => inds.getD j false || (C.grade j == g))
+    ((Array.range a.size).map fun j => C.grade j == g0)
+  (Array.range a.size).map fun i => if inds.getD i false then a.getD i 0 else 0
+
+theorem callBody_eq (C : Model.Ctx) (g0 : Nat) (rest : List Nat) (a : Model.MV) : callBody C g0 rest a = C.jCall (g0 :: rest) a := by
+  unfold callBody Model.Ctx.jCall
+  apply range_map_congr
+  intro i hi
+  rw [orMasks a.size C.grade rest _ (by simp) i hi]
+  have : ((Array.range a.size).map fun j => C.grade j == g0).getD i false = (C.grade i == g0) := by simp [Array.getD, hi]
+  rw [this, List.contains_cons]
+
+end NumbaEq
